@@ -232,6 +232,12 @@ func genArgs(r *core.Rand, s *script) ([]cty.Value, []string) {
 		n = nPos + r.Intn(7-nPos)
 	}
 	calm := r.Chance(1, 4)
+	if s.varp != nil && r.Chance(1, 25) {
+		// a long variadic tail: per-argument bookkeeping kept in a machine word (bit sets of 32 or 64 flags,
+		// small fixed arrays) only goes wrong beyond its width
+		n = nPos + []int{15, 16, 17, 30, 31, 32, 33, 34, 40, 63, 64, 65, 66, 70}[r.Intn(14)]
+		calm = r.Chance(3, 4)
+	}
 	args := make([]cty.Value, n)
 	classes := make([]string, n)
 	for i := range args {
